@@ -14,7 +14,8 @@ RULE = ("80% well-formed wire messages from the compressing DNS writer of props/
         "names and compressed names inside CNAME/NS/PTR/MX/SOA/SRV data; TXT/HINFO/A/unknown data, a share of it seeded with "
         "bytes >= 0xC0 that resolve to real names; MX preference / SOA serial / SRV port equal to 0xC00C), 8% with odd labels "
         "(dots inside labels, non-ASCII, xn--), 12% mutated (truncation, loops, forward pointers, pointers to the root label), "
-        "each pushed as one UDP datagram through the real DNSLayer from the client or the server side; every 5th input is also "
+        "each pushed as one UDP datagram through the real DNSLayer from the client or the server side; every 6th input also goes, with 0-3 more "
+        "messages, length-prefixed and pipelined over TCP through the real layer with the stream cut at 0-3 arbitrary points; every 5th input is also "
         "a reference-decoder comparison case. Non-trivial = the layer sent bytes on or rejected the message; distinct by JSON.")
 TRUSTED = ["Coq 8.16.1 kernel (coqc), vm_compute for case evaluation and the refutation witness",
            "harness/props/C26.py: sans-io driver of DNSLayer (replies to hooks and OpenConnection), Python reference decoder ref_canon "
@@ -122,6 +123,10 @@ def ref_canon(buf):
 
 
 # ------------------------------------------------------------------ generator
+def wt3(rng):
+    return rng.choice([0, 0, 1, 1, 2, 3])
+
+
 def gen(rng, n, tier):
     out = [{"k": "compr", "t": t} for t in list(range(0, 70)) + [99, 249, 250, 255, 256, 257, 32768, 65280, 65535]]
     for i in range(n):
@@ -135,6 +140,12 @@ def gen(rng, n, tier):
             b, _ = C25.build_wire(rng, rng.chance(0.2))
             b, mt = C25.mutate(rng, b); tags += ["mut:" + t for t in mt]
         out.append({"k": "fwd", "buf": hx(b), "from_client": rng.chance(0.4), "tags": tags})
+        if i % 6 == 1:
+            # the same kind of messages over TCP: length-prefixed, 1-4 pipelined, the stream cut at arbitrary points
+            msgs = [b] + [C25.build_wire(rng, False)[0] for _ in range(wt3(rng))]
+            total = sum(len(m) + 2 for m in msgs)
+            cuts = sorted({rng.below(total) for _ in range(rng.randint(0, 3))} - {0})
+            out.append({"k": "tcp", "msgs": [hx(m) for m in msgs], "cuts": cuts, "from_client": rng.chance(0.4)})
         if i % 5 == 0:
             if rng.chance(0.5):
                 b, _ = C25.mutate(rng, b)
@@ -154,12 +165,14 @@ def setup_impl():
     C25.setup_impl()
 
 
-def forward(buf: bytes, from_client: bool):
+def forward(buf, from_client: bool, tcp_segments=None, prime_ids=()):
+    """UDP: buf is one datagram. TCP (tcp_segments given): the segments are fed one after the other; returns every byte sent on."""
+    proto = "tcp" if tcp_segments is not None else "udp"
     OPEN = connection.ConnectionState.OPEN
     ctx = context.Context(connection.Client(peername=("client", 1234), sockname=("127.0.0.1", 53), timestamp_start=0.0,
-                                            state=OPEN, transport_protocol="udp"), opts)
+                                            state=OPEN, transport_protocol=proto), opts)
     ctx.server.address = ("upstream", 53)
-    ctx.server.transport_protocol = "udp"
+    ctx.server.transport_protocol = proto
     layer = ldns.DNSLayer(ctx)
     sent, closed = [], []
 
@@ -178,6 +191,19 @@ def forward(buf: bytes, from_client: bool):
                 elif isinstance(cmd, commands.CloseConnection):
                     closed.append(cmd.connection is ctx.client)
     drive(events.Start())
+    if tcp_segments is not None:
+        prime = b"\x01\x00\x00\x01\x00\x00\x00\x00\x00\x00" + b"\x00\x00\x01\x00\x01"
+        if not from_client:
+            for pid in prime_ids:
+                drive(events.DataReceived(ctx.client, struct.pack("!H", 2 + len(prime)) + pid + prime))
+            if len(sent) != len(prime_ids) or any(x[0] for x in sent) or closed:
+                return {"err": "EOther:priming"}
+            sent.clear()
+        for seg in tcp_segments:
+            drive(events.DataReceived(ctx.client if from_client else ctx.server, seg))
+        if any(x[0] != (not from_client) for x in sent):
+            return {"err": "EOther:shape"}
+        return {"ok": hx(b"".join(x[1] for x in sent)), "closed": bool(closed)}
     if not from_client:
         # the layer relays an upstream message only if it answers a client query: prime it with a minimal query
         # (root name, type A) carrying the id of the response, and discard what that query produced
@@ -196,6 +222,26 @@ def forward(buf: bytes, from_client: bool):
 def run_impl(case):
     if case["k"] == "compr":
         return {"r": bool(C25.domain_names.record_data_can_have_compression(case["t"]))}
+    if case["k"] == "tcp":
+        msgs = [unhx(m) for m in case["msgs"]]
+        udp = []
+        for m in msgs:
+            try:
+                udp.append(forward(m, case["from_client"]))
+            except Exception as e:
+                udp.append({"err": C25.exc_class(e)})
+        stream = b"".join(struct.pack("!H", len(m)) + m for m in msgs)
+        cuts = [0] + list(case["cuts"]) + [len(stream)]
+        segs = [stream[a:b] for a, b in zip(cuts, cuts[1:]) if b > a]
+        ids = []
+        for m in msgs:
+            if bytes(m[:2]).ljust(2, b"\0") not in ids:
+                ids.append(bytes(m[:2]).ljust(2, b"\0"))
+        try:
+            t = forward(None, case["from_client"], tcp_segments=segs, prime_ids=ids)
+        except Exception as e:
+            t = {"err": C25.exc_class(e)}
+        return {"udp": udp, "tcp": t}
     buf = unhx(case["buf"])
     if case["k"] == "ref":
         c = ref_canon(buf)
@@ -215,6 +261,11 @@ def run_impl(case):
 def coq_case(case, obs):
     if case["k"] == "compr":
         return f"Comp {case['t']}%N {cbool(obs['r'])}"
+    if case["k"] == "tcp":
+        t = obs["tcp"]
+        if "ok" not in t:
+            return "Tcp " + C25.clist([cbytes(unhx(m)) for m in case["msgs"]], "bytes") + " (@nil byte) true"
+        return "Tcp " + C25.clist([cbytes(unhx(m)) for m in case["msgs"]], "bytes") + f" {cbytes(unhx(t['ok']))} {cbool(t['closed'])}"
     b = cbytes(unhx(case["buf"]))
     if case["k"] == "ref":
         return f"Ref {b} {copt(obs['canon'], lambda h: cbytes(unhx(h)), 'bytes')}"
@@ -252,6 +303,25 @@ def oracle(case, obs):
                 return [{"key": "raw-rdata-rewritten", "what": f"type {t} has no domain name in its RDATA but is scanned for compression pointers"}]
             return [{"key": "opaque-type-scanned-for-pointers",
                      "what": f"record_data_can_have_compression({t}) is True, but RDATA of type {t} is opaque (no compressible name per the RFCs): it would not be forwarded byte-for-byte"}]
+        return []
+    if case["k"] == "tcp":
+        if any("ok" not in u for u in obs["udp"]):
+            return []               # some message is not forwarded over UDP either: judged by the fwd cases
+        t, side = obs["tcp"], ("client" if case["from_client"] else "server")
+        if "ok" not in t or t.get("closed"):
+            why = t.get("err", "connection closed")
+            return [{"key": "tcp-stream-not-forwarded", "what": f"{len(case['msgs'])} messages from the {side}, each forwarded over UDP, over TCP (cuts {case['cuts']}): {why}; messages {case['msgs']}"}]
+        out, frames = unhx(t["ok"]), []
+        while len(out) >= 2:
+            n = struct.unpack_from("!H", out)[0]
+            frames.append(out[2:2 + n]); out = out[2 + n:]
+        if out or len(frames) != len(case["msgs"]):
+            return [{"key": "tcp-framing-broken", "what": f"{len(case['msgs'])} messages in, {len(frames)} frames + {len(out)} stray bytes out: {case['msgs']}"}]
+        for i, (f, u) in enumerate(zip(frames, obs["udp"])):
+            cu, ct = ref_canon(unhx(u["ok"])), ref_canon(f)
+            if cu != ct or (cu is None and f != unhx(u["ok"])):
+                return [{"key": "tcp-forward-differs-from-udp",
+                         "what": f"message #{i} {case['msgs'][i]} is forwarded over UDP as {u['ok']} but over TCP (pipelined, cuts {case['cuts']}) as {f.hex()}: the reference decoder reads them differently"}]
         return []
     if case["k"] != "fwd" or obs["cin"] is None:
         return []                       # not a well-formed message: nothing to preserve (rejection/garbage is C25's business)
@@ -343,12 +413,17 @@ def oracle(case, obs):
 
 
 def nontrivial(case, obs):
-    return True if case["k"] in ("ref", "compr") else ("ok" in obs["sent"] or obs["sent"]["err"] == "EStruct")
+    return True if case["k"] in ("ref", "compr", "tcp") else ("ok" in obs["sent"] or obs["sent"]["err"] == "EStruct")
 
 
 def classify(case, obs):
     if case["k"] == "compr":
         return ["compr", f"compr={obs['r']}"]
+    if case["k"] == "tcp":
+        ok = all("ok" in u for u in obs["udp"])
+        comp = any(any(x >= 0xC0 for x in unhx(m)[12:]) for m in case["msgs"])
+        return ["tcp", f"tcp-msgs={len(case['msgs'])}", f"tcp-cuts={len(case['cuts'])}", "tcp-all-forwardable" if ok else "tcp-some-rejected",
+                "tcp-compressed" if comp else "tcp-plain", "tcp-from-client" if case["from_client"] else "tcp-from-server"]
     if case["k"] == "ref":
         return ["ref", "ref-ok" if obs["canon"] else "ref-malformed"]
     s = obs["sent"]
